@@ -39,3 +39,18 @@ def tier2(tier, rng):
         parts = L.sample(rng, L.region_partitions(h, w, min_size=4), 12 if th else 3)
         for blocks in parts:
             yield {"h": h, "w": w, "blocks": blocks}
+
+
+def big(tier, rng):
+    """5x5 / 4x6 / 6x4 boards with 3-4 rooms (too many candidate grids to enumerate: every grid the solver admits,
+    up to the cap, is checked against the rules)"""
+    th = tier == "thorough"
+    for (h, w) in [(5, 5), (4, 6), (6, 4)]:
+        k = 0
+        for _ in range(400):
+            blocks = L.random_rooms(rng, h, w, rng.choice([3, 4]))
+            if all(len(b) >= 4 for b in blocks):
+                yield {"h": h, "w": w, "blocks": blocks}
+                k += 1
+                if k >= (16 if th else 4):
+                    break
